@@ -704,3 +704,49 @@ def flw3(ctx):
 
 def _names(p):
     return {q["name"] for q in hirq.walk_pats(p) if q.get("p") == "bind"}
+
+
+# ---------------------------------------------------------------- FLW-10 end-of-word fallback
+
+
+def flw10(ctx):
+    """a match declared after the scan loop of input_match_at (the word ran out) must have tested how far the input was matched"""
+    r = RuleResult("FLW-10", "input_match_at: a match reported after the word ran out is conditioned on `state_index` (only the trailing boundary may be unmatched)", floor=1)
+    lib = ctx.lib
+    b = ctx.fn(lib, "asca::subrule::SubRule::input_match_at")
+    root = b.hir["body"]
+    par = hirq.parent_map(root)
+    loops = [n for n in hirq.walk(root) if n["e"] == "loop"]
+    in_loop = set()
+    for l in loops:
+        in_loop |= {id(x) for x in hirq.walk(l)}
+    n = 0
+    for node in hirq.walk(root):
+        if node["e"] != "call" or id(node) in in_loop or node.get("exp"):
+            continue
+        if not (hirq.strip(node["f"]).get("path") or "").endswith("Result::Ok"):
+            continue
+        a = hirq.strip(node["args"][0])
+        if a.get("e") != "tup" or not a["items"]:
+            continue
+        first = hirq.strip(a["items"][0])
+        if not (first.get("e") == "path" and "local" in first):
+            continue            # `vec![]`: no match
+        n += 1
+        conds = []
+        x = par.get(id(node))
+        child = node
+        while x is not None:
+            if x.get("e") == "if" and any(y is child for y in hirq.walk(x["then"])) or (x.get("e") == "if" and x.get("else") is not None and any(y is child for y in hirq.walk(x["else"]))):
+                conds.append(x["cond"])
+            child = x
+            x = par.get(id(x))
+        tested = any(m["e"] == "path" and m.get("local") == "state_index" for c in conds for m in hirq.walk(c))
+        r.inst("after the scan loop a match is returned under %d conditions; `state_index` is %stested" % (len(conds), "" if tested else "not "), fn_loc(b, node["ln"]),
+               "ok" if tested else "report")
+        if not tested:
+            r.report("FLW-10|input_match_at|fallback#%d" % (n - 1), fn_loc(b, node["ln"]), b.path,
+                     "when the word runs out in the middle of an input match, a full match is reported without testing how many input elements were matched: unmatched elements before a trailing `$` are skipped and a rule that cannot match rewrites the word")
+    if n == 0:
+        raise AnchorMissing("input_match_at: no match returned after the scan loop (anchor for the end-of-word fallback)")
+    return r
